@@ -626,9 +626,13 @@ Definition wf (k : kind) (v : value) : Prop := wfb k v = true.
 
 Definition nocolon (c : N) : Prop := c <> c_colon.
 
-Lemma comp_limit_pos : 0 < comp_limit.
+Lemma comp_limit_pos : 1 < comp_limit.
 Proof.
-  unfold comp_limit. assert (2 ^ 3582 < 2 ^ 4095) by (apply Z.pow_lt_mono_r; lia). lia.
+  unfold comp_limit.
+  assert (2 ^ 3583 <= 2 ^ 4095) by (apply Z.pow_le_mono_r; lia).
+  assert (2 ^ 3583 = 2 * 2 ^ 3582) by (rewrite <- Z.pow_succ_r by lia; reflexivity).
+  assert (2 ^ 1 <= 2 ^ 3582) by (apply Z.pow_le_mono_r; lia).
+  change (2 ^ 1) with 2 in *. lia.
 Qed.
 
 (* result of unmarshalFloat on the text of a well-formed Float representation *)
@@ -718,7 +722,7 @@ Proof.
   intros W C. destruct f as [n d|neg m e|]; cbn [float_result].
   - destruct (wf_rat _ _ W) as [G [Hn Hd]]. cbn [fadd0]. apply make_rat_id; assumption.
   - cbn [cpart_ok] in C. unfold big_result. destruct (big_small m e); [discriminate|reflexivity].
-  - cbn [fadd0]. apply make_rat_id; [reflexivity| |]; pose proof comp_limit_pos; simpl; lia.
+  - cbn [fadd0]. apply make_rat_id; [reflexivity| |]; pose proof comp_limit_pos; try change (Z.abs 0) with 0; lia.
 Qed.
 
 Lemma roundtrip_complex re im : wf KComplex (VComplex re im) -> cpart_ok re = true -> cpart_ok im = true ->
